@@ -20,7 +20,9 @@ fn base_assumptions() -> Vec<String> {
     vec![
         "every transition is an execution of the code in /repo built with --cfg tikv_raft_rs_verif (hooks are additive: derive(Clone), read-only views, deterministic election timeout)".into(),
         "the simulated application follows the documented Ready/advance contract (DESIGN.md §2.4): writes snapshot, entries, hard state in that order; persisted messages only after fsync (async mode: notify-then-send and, in the -loose scenarios, send-then-notify); apply only what was handed out; fsync skipped only when must_sync is false (the -nosync scenarios)".into(),
-        "a crash keeps a prefix of the unsynced write sequence (write-ahead-log assumption)".into(),
+        "a crash keeps a prefix of the unsynced write sequence (write-ahead-log assumption); in the -split scenarios the applied state (index, configuration, state-machine digest) lives in a store of its own with synchronous writes, so a restart may pass Config::applied ahead of the recovered commit index".into(),
+        "storage: SimStorage with MemStorage semantics and the documented Storage contract; in the -memq scenarios compaction forgets the term of first_index-1 as MemStorage::compact does".into(),
+        "apply-before-persist (-unp scenarios) is switched on by the application through set_max_apply_unpersisted_log_limit once a Ready round has shown the node leading (Config's value is reset by Raft::new and by every step-down)".into(),
         "bounds: the scenario caps listed per run (terms, log length, per-kind fault and client budgets); payloads are opaque unique tags".into(),
         "election timeouts are the deterministic function min + (id + term + salt) % (max - min) of hook H3 (constant when max = min + 1)".into(),
     ]
@@ -131,9 +133,9 @@ pub fn plan_for(prop: &str, tier: &str) -> Plan {
         }
         "C13" => {
             p.scenarios = if q {
-                sc(&[("flow", 0), ("flow-cap", 0), ("repl-i1-sz", 1), ("repl", 1), ("repl-div", 1), ("repl-mix", 1), ("fig8-back-t4", 0), ("flow-elect", 0), ("flow-elect-inherit", 0), ("flow", 1), ("repl-batch", 1)])
+                sc(&[("flow", 0), ("flow-cap", 0), ("repl-i1-sz", 1), ("repl", 1), ("repl-div", 1), ("repl-mix", 1), ("fig8-back-t4", 0), ("flow-elect-inherit", 0), ("flow-elect", 0), ("flow", 1), ("repl-batch", 1)])
             } else {
-                sc(&[("flow", 0), ("flow-cap", 0), ("repl-i1-sz", 1), ("repl", 1), ("repl-div", 1), ("repl-mix", 1), ("fig8-back-t4", 0), ("flow-elect", 0), ("flow-elect-inherit", 0), ("flow", 1), ("repl-batch", 1), ("flow-div", 1), ("flow-batch", 1), ("repl-fetch", 1), ("flow-cap", 1), ("repl-mix", 3), ("repl", 2), ("flow", 2), ("repl-batch", 2)])
+                sc(&[("flow", 0), ("flow-cap", 0), ("repl-i1-sz", 1), ("repl", 1), ("repl-div", 1), ("repl-mix", 1), ("fig8-back-t4", 0), ("flow-elect-inherit", 0), ("flow-elect", 0), ("flow", 1), ("repl-batch", 1), ("flow-div", 1), ("flow-batch", 1), ("repl-fetch", 1), ("flow-cap", 1), ("repl-mix", 3), ("repl", 2), ("flow", 2), ("repl-batch", 2)])
             };
             p.required_stats = vec![Stat::AppendsChecked, Stat::HeartbeatsChecked, Stat::WindowFull, Stat::ProbePaused, Stat::ProposalsAccepted, Stat::ProposalsRefused];
             p.explanation = "explicit-state exploration over all ack/reject/heartbeat-response orders incl. stale, duplicated and reordered ones and runtime window resizing; reference window model per (leader, follower) driven by generated and delivered messages; every generated MsgAppend / MsgHeartbeat checked for well-formedness against the leader's own log; ghost of uncommitted payload bytes".into();
